@@ -63,6 +63,14 @@ pub fn run_sqlhist(inp: &mut dyn BufRead, out: &mut dyn Write) {
                         Ok(()) => "u".into(),
                         Err(_) => "err".into(),
                     },
+                    "save" => match h.save(&path) {
+                        Ok(()) => "u".into(),
+                        Err(_) => "err".into(),
+                    },
+                    "append" => match h.append(&path) {
+                        Ok(()) => "u".into(),
+                        Err(_) => "err".into(),
+                    },
                     "reopen" => {
                         drop(h);
                         h = SQLiteHistory::open(cfg(max, igs, igd), &path).expect("reopen");
